@@ -39,13 +39,9 @@ func jobSets() [][]int {
 // RaceOnce runs one job set free-running with the given number of threads
 // (jobs are repeated round robin) and compares with the sequential results.
 // It is meant to run in a -race build; the detector writes to GORACE's log_path.
-func RaceOnce(jobs []int, threads, reps int) (mismatch string) {
+func RaceOnce(jobs []int, threads, reps int, solo map[int]string) (mismatch string) {
 	cfg := g.ConfigNopNano
 	shared := SharedWarrior()
-	solo := map[int]string{}
-	for _, j := range jobs {
-		solo[j] = RunJob(j, cfg, shared)
-	}
 	for r := 0; r < reps; r++ {
 		res := make([]string, threads)
 		var wg sync.WaitGroup
@@ -57,6 +53,14 @@ func RaceOnce(jobs []int, threads, reps int) (mismatch string) {
 			}(t)
 		}
 		wg.Wait()
+		// the sequential results are computed only after the first concurrent
+		// round: a sequential warm-up would fill lazily built shared state
+		// (caches, pools) and hide races on its construction
+		if len(solo) == 0 {
+			for _, j := range jobs {
+				solo[j] = RunJob(j, cfg, SharedWarrior())
+			}
+		}
 		for t := 0; t < threads; t++ {
 			if res[t] != solo[jobs[t%len(jobs)]] {
 				return fmt.Sprintf("thread %d (%s) returned %s; sequentially it returns %s", t, jobNames[jobs[t%len(jobs)]], res[t], solo[jobs[t%len(jobs)]])
@@ -186,8 +190,10 @@ func firstRace(s string) string {
 
 // RaceChild runs inside the child process.
 func RaceChild(sc *Scenario, reps int) {
-	for _, th := range []int{1, 2, 4, 8, 16, 32} {
-		if m := RaceOnce(sc.Jobs, th, reps); m != "" {
+	solo := map[int]string{}
+	// the widest fan-out first, on a cold process
+	for _, th := range []int{32, 16, 8, 4, 2, 1} {
+		if m := RaceOnce(sc.Jobs, th, reps, solo); m != "" {
 			fmt.Println("MISMATCH with", th, "threads:", m)
 			return
 		}
